@@ -6,7 +6,10 @@ import (
 	"flag"
 	"fmt"
 	"os"
+	"runtime"
 	"strconv"
+	"strings"
+	"time"
 
 	"github.com/rs/zerolog"
 
@@ -53,6 +56,37 @@ func usage() {
 	os.Exit(2)
 }
 
+// memoryWatchdog ends a child whose resident set grows beyond a generous bound (default 6 GiB,
+// VERIF_CHILD_MAXRSS_MB overrides), so that a runaway case cannot starve the machine.  The parent
+// reports the dead child as broken (or as a crash of the open case if inbucket frames are on top).
+func memoryWatchdog(c *fw.Ctx) {
+	limit := int64(6144)
+	if s := os.Getenv("VERIF_CHILD_MAXRSS_MB"); s != "" {
+		if n, err := strconv.ParseInt(s, 10, 64); err == nil && n > 0 {
+			limit = n
+		}
+	}
+	for {
+		time.Sleep(500 * time.Millisecond)
+		b, err := os.ReadFile("/proc/self/statm")
+		if err != nil {
+			return
+		}
+		f := strings.Fields(string(b))
+		if len(f) < 2 {
+			return
+		}
+		pages, _ := strconv.ParseInt(f[1], 10, 64)
+		if mb := pages * int64(os.Getpagesize()) >> 20; mb > limit {
+			fmt.Fprintf(os.Stderr, "HARNESS: resident set %d MiB exceeds %d MiB in case %q; giving up\n", mb, limit, c.CurCase())
+			buf := make([]byte, 1<<16)
+			n := runtime.Stack(buf, true)
+			os.Stderr.Write(buf[:n])
+			os.Exit(4)
+		}
+	}
+}
+
 func seed() uint64 {
 	s := os.Getenv("VERIF_SEED")
 	if s == "" {
@@ -92,6 +126,7 @@ func child(args []string) {
 		os.Exit(3)
 	}
 	c.After = *after
+	go memoryWatchdog(c)
 	p.Run(c)
 	c.Flush(true)
 }
